@@ -40,7 +40,9 @@ func main() {
 
 type tuple struct{ N, r, p, keyLen int }
 
-func (t tuple) String() string { return fmt.Sprintf("N=%d r=%d p=%d keyLen=%d", t.N, t.r, t.p, t.keyLen) }
+func (t tuple) String() string {
+	return fmt.Sprintf("N=%d r=%d p=%d keyLen=%d", t.N, t.r, t.p, t.keyLen)
+}
 
 // describe which parameters RFC 7914 rejects (for violation classes)
 func invalidPart(t tuple) string {
